@@ -39,4 +39,9 @@ def instances(tier):
                         unwind=6, nb=5, ni=2, nf=3, timeout=300, mem_gb=3, funcs=["run_kalign", "init_param", "free_parameters"],
                         bound="%d input files; library calls answer OK/FAIL arbitrarily" % nf,
                         desc="run_kalign argument plumbing with %d input files" % nf))
+    out.append(Inst(ob="O4", name="main_options", harness="c09_cli.c", defs={"OB_O4": None, "VK_STR_MAX": 16},
+                    models=["models/vin.c", "models/msg.c", "models/str.c"], native_srcs=["lib/src/tldevel.c"],
+                    unwind=18, nb=1, ni=6, nf=3, timeout=300, mem_gb=4, replay="solver", flags=["--object-bits", "12"], funcs=["main (option switch)", "set_aln_type", "check_msa_format_string", "run_kalign"],
+                    bound="up to three options out of --gpo --gpe --tgpe --type -n with arbitrary numeric values, one positional input file",
+                    desc="option values reach kalign_run as the numbers the user wrote (getopt scripted, atof/atoi uninterpreted per argument)"))
     return out
